@@ -1189,6 +1189,9 @@ SPECS = [
     dict(name="get_corner_and_scale", file="pyresample/geometry.py", func="AreaDefinition._get_corner_and_scale",
          params=[("self.pixel_size_x", RAT), ("self.pixel_size_y", RAT), ("self.pixel_upper_left", tup(RAT, RAT))],
          returns=tup(RAT, RAT, RAT, RAT), select=_whole, owners=["C01", "C18"]),
+    dict(name="area_resolution", file="pyresample/geometry.py", func="AreaDefinition.resolution",
+         params=[("self.pixel_size_x", RAT), ("self.pixel_size_y", RAT)], returns=tup(RAT, RAT), select=_whole,
+         owners=["C18", "C07", "C11"]),
     dict(name="array_from_proj", file="pyresample/geometry.py", func="AreaDefinition.get_array_coordinates_from_projection_coordinates",
          params=[("xm", RAT), ("ym", RAT), ("self.pixel_size_x", RAT), ("self.pixel_size_y", RAT), ("self.pixel_upper_left", tup(RAT, RAT))],
          returns=tup(RAT, RAT), select=_whole,
